@@ -71,10 +71,18 @@ class Spy:
         self.NM, self.orig, self.calls = NM, NM.sample_size, []
         spy = self
 
-        def wrapper(nmself, x=None, alpha=0.05, reps=None, prefix=False, quantile=0.5, **kwargs):
-            spy.calls.append({"x": [float(v) for v in np.asarray(x, dtype=float)], "N": nmself.N, "reps": reps,
-                              "prefix": bool(prefix), "seed": kwargs.get("seed", 1234567890)})
-            return spy.orig(nmself, x, alpha=alpha, reps=reps, prefix=prefix, quantile=quantile, **kwargs)
+        import inspect
+        sig = inspect.signature(self.orig)
+
+        def wrapper(nmself, *args, **kwargs):
+            # the caller's arguments go through UNCHANGED (an argument the caller leaves out stays left out: the real
+            # function's own defaults apply); what is recorded is what the real signature binds them to
+            b = sig.bind(nmself, *args, **kwargs)
+            b.apply_defaults()
+            a = b.arguments
+            spy.calls.append({"x": [float(v) for v in np.asarray(a["x"], dtype=float)], "N": nmself.N, "reps": a["reps"],
+                              "prefix": bool(a["prefix"]), "seed": a["kwargs"].get("seed", 1234567890)})
+            return spy.orig(nmself, *args, **kwargs)
 
         NM.sample_size = wrapper
         return self
@@ -267,31 +275,58 @@ def _warm(case, spy, contests=None, assertion=None, audit=None, call=None):
     spy.calls.clear()
 
 
+def _is_default(v, d):
+    if v is None or d is None:
+        return v is None and d is None
+    if isinstance(v, np.ndarray):
+        return False
+    if isinstance(v, bool) or isinstance(d, bool):
+        return isinstance(v, bool) and isinstance(d, bool) and v == d
+    return v == d
+
+
+def _drop_defaults(args, defaults):
+    """the keyword arguments of a call without those whose value equals the documented default"""
+    return {k: v for k, v in args.items() if not (k in defaults and _is_default(v, defaults[k]))}
+
+
 def observe(case):
     """run the real code under the spy; returns (result dict, recorded calls)"""
     op = case["op"]
     with Spy() as spy:
         try:
+            # case["call"] == "defaults": every optional argument whose value in the case IS the documented default is
+            # left out of the call (the case says alpha = 1/20, the call says nothing); same inputs, same model request
+            dflt = case.get("call") == "defaults"
             if op == "nm":
                 nm = NMG.make_nm(case["init"])
-                x = np.array([flt(v) for v in case["x"]], dtype=float)
+                x = [flt(v) for v in case["x"]]
+                if case.get("x_form") != "list":        # "x: list or np.array"
+                    x = np.array(x, dtype=float)
                 kw = {} if case["reps"] is None and case.get("seed") is None else {"seed": case["seed"]}
-                n = nm.sample_size(x, alpha=flt(case["alpha"]), reps=case["reps"], prefix=case["prefix"],
-                                   quantile=flt(case["quantile"]), **kw)
+                args = dict(alpha=flt(case["alpha"]), reps=case["reps"], prefix=case["prefix"], quantile=flt(case["quantile"]), **kw)
+                if dflt:
+                    args = _drop_defaults(args, {"alpha": 0.05, "reps": None, "prefix": False, "quantile": 0.5, "seed": 1234567890})
+                n = nm.sample_size(x, **args)
                 res = {"st": "ok", "n": int(n)}
             elif op == "find":
                 a = build_assertion(case["asn"])
                 data = None if case["data"] is None else np.array([flt(v) for v in case["data"]], dtype=float)
                 _warm(case, spy, assertion=a, call=lambda r1, r2: a.find_sample_size(
                     data=None, prefix=False, rate_1=r1, rate_2=r2, reps=None, quantile=0.5, seed=case["seed"]))
-                n = a.find_sample_size(data=data, prefix=case["prefix"], rate_1=flt(case["rate_1"]),
-                                       rate_2=flt(case["rate_2"]), reps=case["reps"],
-                                       quantile=flt(case["quantile"]), seed=case["seed"])
+                args = dict(data=data, prefix=case["prefix"], rate_1=flt(case["rate_1"]), rate_2=flt(case["rate_2"]),
+                            reps=case["reps"], quantile=flt(case["quantile"]), seed=case["seed"])
+                if dflt:
+                    args = _drop_defaults(args, {"data": None, "prefix": False, "rate_1": None, "rate_2": None, "reps": None,
+                                                 "quantile": 0.5, "seed": 1234567890})
+                n = a.find_sample_size(**args)
                 res = {"st": "ok", "n": int(n), "attr": int(a.sample_size)}
             elif op == "interleave":
                 from shangrla.core.Audit import Assertion
-                x = Assertion.interleave_values(case["n_small"], case["n_med"], case["n_big"],
-                                                small=flt(case["small"]), med=flt(case["med"]), big=flt(case["big"]))
+                args = dict(small=flt(case["small"]), med=flt(case["med"]), big=flt(case["big"]))
+                if dflt:
+                    args = _drop_defaults(args, {"small": 0, "med": 0.5, "big": 1})
+                x = Assertion.interleave_values(case["n_small"], case["n_med"], case["n_big"], **args)
                 res = {"st": "ok", "x": [float(v) for v in x]}
             elif op == "contest":
                 con = build_multi(case)
@@ -330,8 +365,10 @@ def observe(case):
                 from shangrla.raire.sample_estimator import sample_size
                 args = types.SimpleNamespace(erate1=flt(case["erate1"]), erate2=flt(case["erate2"]),
                                              rlimit=flt(case["rlimit"]), reps=case["reps"], seed=case["seed"])
-                n = sample_size(flt(case["mean"]), case["tw"], case["tl"], case["to"], args, case["N"],
-                                upper_bound=flt(case["upper_bound"]), polling=case["polling"])
+                opt = dict(upper_bound=flt(case["upper_bound"]), polling=case["polling"])
+                if dflt:
+                    opt = _drop_defaults(opt, {"upper_bound": 1, "polling": False})
+                n = sample_size(flt(case["mean"]), case["tw"], case["tl"], case["to"], args, case["N"], **opt)
                 res = {"st": "ok", "n": int(n)}
             else:
                 raise ValueError(op)
@@ -1223,7 +1260,58 @@ def with_warm(rng, case):
     return case
 
 
+def gen_options(rng, tier):
+    """call forms the main stream never uses (OPTIONS_AUDIT.md): optional arguments left at their documented defaults
+    (alpha = 0.05, reps = None, prefix = False, quantile = 0.5, seed = 1234567890; rate_1 = rate_2 = None;
+    small / med / big = 0 / 1/2 / 1; upper_bound = 1, polling = False) -- the case carries those very values and the
+    call leaves them out --, and the pilot sample of NonnegMean.sample_size as a Python list"""
+    r = rng.random()
+    if r < 0.40:
+        c = gen_nm(rng, tier)
+        if rng.chance(0.7):
+            c["alpha"] = "1/20"
+        if rng.chance(0.6):
+            c["quantile"] = "1/2"
+        if c["reps"] is not None and rng.chance(0.6):
+            c["seed"] = 1234567890
+            if rng.chance(0.5):
+                c["prefix"] = False
+        if rng.chance(0.5):
+            c["x_form"] = "list"
+    elif r < 0.75:
+        c = gen_find(rng, tier)
+        if c["reps"] is not None and rng.chance(0.7):
+            c["seed"] = 1234567890
+        if rng.chance(0.6):
+            c["quantile"] = "1/2"
+        if rng.chance(0.5):
+            c["prefix"] = False
+        if rng.chance(0.4):
+            c["rate_2"] = None
+        if rng.chance(0.3):
+            c["rate_1"] = None
+    elif r < 0.9:
+        c = gen_interleave(rng, tier)
+        vals = rng.choice([("0", "1/2", "1"), ("0", "1/2", "1"), ("0", "1/2", "3/2"), ("1/10", "1/2", "1"), ("0", "1", "1")])
+        c["small"], c["med"], c["big"] = vals
+    else:
+        c = gen_raire(rng, tier)
+        if rng.chance(0.7):
+            c["upper_bound"] = "1"
+    c["call"] = "defaults"
+    return c
+
+
 def gen(rng, n, tier):
+    import hashlib
+    from ..core import Rng
+    opt = Rng(int(hashlib.sha1(("options" + repr(rng.getstate())).encode()).hexdigest()[:15], 16))
+    yield from gen_main(rng, n, tier)
+    for _ in range(max(8, n // 10)):
+        yield gen_options(opt, tier)
+
+
+def gen_main(rng, n, tier):
     for _ in range(n):
         r = rng.random()
         if r < 0.30:
@@ -1396,6 +1484,26 @@ def oracle_c16_estimates(case, ir):
         if op == "find" and case.get("stream") in ("regular", "zeros") and case["data"] is None \
                 and case["asn"]["audit_type"] == "POLLING" and ir.get("err") in ("NameError", "ZeroDivisionError"):
             return {"what": f"polling estimate from a consistent tally raised {ir.get('err')}: {ir.get('msg')}"}
+        if op == "nm":
+            # inside C16's quantifier (non-constant pilot shorter than N, values in [0,u], repetitions >= 1) the estimate
+            # IS the first crossing on the documented population; if that exists, raising instead is not equal to it
+            from .. import scope
+            init, N = case["init"], case["init"]["N"]
+            try:
+                xv = [F(v) for v in case["x"]]
+                u = F(init["u_now"] if init.get("u_now") is not None else init["u"])
+                inside = (not scope._ss_out(case) and isinstance(N, int) and len(xv) < N and all(0 <= v <= u for v in xv)
+                          and 0 <= F(case["quantile"]) <= 1 and 0 < F(case["alpha"]) < 1)
+            except Exception:
+                inside = False
+            if inside:
+                want = impl_call(lambda: expected_estimate(lambda: NMG.make_nm(init), [flt(v) for v in case["x"]], flt(case["alpha"]),
+                                                           N, case["reps"], case["prefix"], flt(case["quantile"]),
+                                                           case["seed"] if case["seed"] is not None else 1234567890))
+                if isinstance(want, int):
+                    return {"what": f"NonnegMean.sample_size raised {ir.get('err')}: {ir.get('msg')} -- the first crossing of the test's own "
+                                    f"history on the documented population exists and is {want}"
+                                    + (" (pilot sample handed over as a list)" if case.get("x_form") == "list" else "")}
         return None
     if op == "interleave":
         ns = {"small": case["n_small"], "med": case["n_med"], "big": case["n_big"]}
